@@ -294,6 +294,42 @@ def run_data(desc, ctx):
                     ctx.case("%s|cond-%s|%s|data" % (name, axis, b), True)
                     compare(ctx, "cond|" + name, got, want, "%s on -x %s bin %s thresholds %s event %d" % (name, axis, b, ts, i),
                             {"ds": ds, "metric": name, "axis": axis, "bin": b, "ts": ts})
+        # obs / fcst statistics on the conditional axes: agg(field | axis-field inside the event)
+        for fname in ("obs", "fcst"):
+            for axis in ("obs", "fcst"):
+                b = rng.choice(list(attach.BIN_TABLE))
+                vals = sorted(set(v for c in ds["inputs"][0]["cells"].values() for v in (c.get("obs"), c.get("fcst")) if v is not None))
+                if len(vals) < 3:
+                    continue
+                ts = sorted(rng.sample(vals, 3))
+                ul, lc, uu, uc = attach.BIN_TABLE[b]
+                ivs = verif.util.get_intervals(b, np.array(ts))
+                agg = rng.choice(["mean", "median", "max", "count", "sum"])
+                m = (verif.metric.Obs if fname == "obs" else verif.metric.Fcst)()
+                m.aggregator = verif.aggregator.get(agg)
+                flds = [(fname,)] + ([(axis,)] if axis != fname else [])
+                for k in range(F):
+                    cases = refmodel.valid_cases(ds, k, flds)
+                    for i, iv in enumerate(ivs):
+                        sel = [c[3][0] for c in cases if attach.in_documented_event(c[3][-1], b, ts[i], ts[i + 1] if (ul and uu) else None)]
+                        try:
+                            got = m.compute(data, k, vutil.vaxis(axis), iv)[0]
+                        except Exception as e:
+                            ctx.violation("exception|%s-on-%s|%s|%s" % (fname, axis, type(e).__name__, "empty-event" if not sel else "nonempty"),
+                                          "-m %s -agg %s -x %s bin %s thresholds %s event %d (%d cases in the event) raised %r"
+                                          % (fname, agg, axis, b, ts, i, len(sel), e), {"ds": ds, "metric": fname, "axis": axis, "agg": agg})
+                            continue
+                        ctx.count("data_evals")
+                        ctx.case("%s|cond-%s|%s|data" % (fname, axis, agg), True)
+                        if not sel:
+                            g = float(np.ma.filled(got, np.nan)) if got is not np.ma.masked else NAN
+                            if not (g != g or (agg in ("count", "sum") and g == 0)):
+                                ctx.violation("definition|cond-empty|%s" % fname, "-m %s -x %s: empty event gives %r" % (fname, axis, g), {"ds": ds})
+                            continue
+                        want = refmetrics.aggregate(agg, sel)
+                        compare(ctx, "cond|%s-on-%s" % (fname, axis), got, want,
+                                "-m %s -agg %s -x %s bin %s thresholds %s event %d input %d" % (fname, agg, axis, b, ts, i, k),
+                                {"ds": ds, "metric": fname, "axis": axis, "bin": b, "ts": ts, "agg": agg})
         # FromField metrics: obs / fcst statistics with every aggregator (obs does NOT require a forecast)
         for fname, cls in (("obs", verif.metric.Obs), ("fcst", verif.metric.Fcst)):
             agg = rng.choice(AGGS)
